@@ -523,6 +523,55 @@ func checkC18(c *Ctx, r *Report) {
 		})
 		r.Check(ok, "C18.R1", "Rollback restores the value replaced by the last Commit", c.Pos(f.Pos()), "comittedValue = previousValue", "Rollback does not restore the previous committed value")
 	}
+	for _, f := range c.FuncsNamed("(*" + configPkg + ".commitable).Confirm") {
+		ok := false
+		eachInstr(f, func(in ssa.Instruction) {
+			st, isSt := in.(*ssa.Store)
+			if !isSt {
+				return
+			}
+			if fv, base, is := fieldOf(st.Addr); is && fv.Name() == "previousValue" && resolveVal(base) == ssa.Value(f.Params[0]) {
+				ok = true
+			}
+		})
+		r.Check(ok, "C18.R1", "Confirm clears the remembered previous value in place", c.Pos(f.Pos()), "store through the pointer receiver", "Confirm does not clear previousValue of the cell it is called on")
+	}
+	if len(c.FuncsNamed("(*"+configPkg+".commitable).Confirm")) == 0 {
+		r.Fail("C18.R1", "Confirm clears the remembered previous value in place", "-", "commitable.Confirm is not a pointer-receiver method (or is gone): a confirmed update keeps its 'previous value', and a later rollback of an unrelated rejected update restores it")
+	}
+	for _, f := range c.FuncsNamed("(*" + configPkg + ".ConfigProp).ConfirmCommitted") {
+		cf := findCall(f, "(*"+configPkg+".commitable).Confirm")
+		st := findCall(f, "(*reservoir/utils/atomics.Value).Store")
+		r.Check(cf != nil && st != nil && instrDominates(cf, st), "C18.R1", "ConfirmCommitted confirms the commit and stores the cell back", c.Pos(f.Pos()), "Confirm() then value.Store(commit)", "ConfirmCommitted does not confirm the commit (or does not store the confirmed cell)")
+	}
+	// lost writes: a method with a value receiver that assigns a field of its receiver copy
+	nVR := 0
+	for _, f := range li.Fns {
+		if originPkgPath(f) != configPkg || f.Signature.Recv() == nil || f.Parent() != nil {
+			continue
+		}
+		if _, isPtr := f.Signature.Recv().Type().Underlying().(*types.Pointer); isPtr {
+			continue
+		}
+		nVR++
+		eachInstr(f, func(in ssa.Instruction) {
+			st, isSt := in.(*ssa.Store)
+			if !isSt {
+				return
+			}
+			fa, isFA := st.Addr.(*ssa.FieldAddr)
+			if !isFA {
+				return
+			}
+			root, _ := fieldPath(fa)
+			if a, isA := root.(*ssa.Alloc); isA {
+				if sts := storesTo(a); len(sts) == 1 && sts[0].Val == ssa.Value(f.Params[0]) {
+					r.Fail("C18.R1", fnKey(f)+": assignment to a field of a value receiver", c.InstrPos(st), "the method has a value receiver, so this assignment changes a copy and is lost: the state machine of staged/committed/previous values silently stops advancing")
+				}
+			}
+		})
+	}
+	r.OkT("C18.R1", "value-receiver methods of package config assign no receiver field", "-", fmt.Sprintf("%d value-receiver methods checked", nVR))
 	for _, f := range c.FuncsNamed("(*" + configPkg + ".commitable).Commit") {
 		ok := false
 		eachInstr(f, func(in ssa.Instruction) {
@@ -1023,10 +1072,42 @@ func checkC19(c *Ctx, r *Report) {
 			}
 		})
 	}
+	lossyChannelsCarryNoState(c, r, li)
 }
 
 // payloadUses lists the ways the handler's payload parameter reaches anything
 // other than logging.
+// lossyChannelsCarryNoState: a send that may be dropped (select with default)
+// can only be a wake-up; if the receiver applied the received value, a dropped
+// or stale message would leave the component on an old setting.
+func lossyChannelsCarryNoState(c *Ctx, r *Report, li *LockInfo) {
+	n := 0
+	for _, f := range li.Fns {
+		if !isModPath(originPkgPath(f)) || strings.HasPrefix(originPkgPath(f), "reservoir/tests") {
+			continue
+		}
+		eachInstr(f, func(in ssa.Instruction) {
+			sel, ok := in.(*ssa.Select)
+			if !ok || sel.Blocking {
+				return
+			}
+			for _, st := range sel.States {
+				if st.Dir != types.SendOnly {
+					continue
+				}
+				_, p := fieldPath(st.Chan)
+				if len(p) == 0 {
+					continue
+				}
+				n++
+				key := fnKey(f) + ": droppable send on " + strings.Join(p, ".")
+				r.Check(receiversDiscard(f, p[len(p)-1]), "C19.R5", key, c.InstrPos(sel), "receivers ignore the value and read the live setting", "a send that is dropped when the slot is full carries a value the receiver applies: after two quick changes the receiver keeps the older value that was already in the slot")
+			}
+		})
+	}
+	r.Floor("C19.R5", n, 1, "droppable (select-default) sends")
+}
+
 func payloadUses(h *ssa.Function, payload *ssa.Parameter) []string {
 	var out []string
 	seen := map[ssa.Value]bool{}
